@@ -358,18 +358,18 @@ Section MultiList.
 End MultiList.
 
 (* ------------------------------------------------------------------------------------------------ *)
-(* dicts and sets: Lua tables keyed by tostring(key)                                                 *)
+(* dicts and sets: Lua tables keyed by __KEY(key)                                                 *)
 
 Section Keyed.
   Variables K V X : Type.
   Variable embK : K -> value.
   Variable keqb : K -> K -> bool.
   Hypothesis keqb_eq : forall k k', keqb k k' = true <-> k = k'.
-  (* KEY INJECTIVITY: different keys have different tostring images *)
-  Hypothesis key_inj : forall k k', rt_tostring (embK k) = rt_tostring (embK k') -> k = k'.
+  (* KEY INJECTIVITY: different keys have different __KEY texts *)
+  Hypothesis key_inj : forall k k', rt_key (embK k) = rt_key (embK k') -> k = k'.
   Variable h : K * V -> X.                       (* what is stored under tostring(k) *)
 
-  Definition ts (k : K) : string := rt_tostring (embK k).
+  Definition ts (k : K) : string := rt_key (embK k).
   Definition entry (kv : K * V) : string * X := (ts (fst kv), h kv).
 
   Lemma ts_eqb : forall k k', String.eqb (ts k) (ts k') = keqb k k'.
@@ -408,7 +408,7 @@ Section Dicts.
   Variable embV : V -> value.
   Variable keqb : K -> K -> bool.
   Hypothesis keqb_eq : forall k k', keqb k k' = true <-> k = k'.
-  Hypothesis key_inj : forall k k', rt_tostring (embK k) = rt_tostring (embK k') -> k = k'.
+  Hypothesis key_inj : forall k k', rt_key (embK k) = rt_key (embK k') -> k = k'.
 
   Definition dict_h (kv : K * V) : value * value := (embK (fst kv), embV (snd kv)).
   Definition rep_dict (m : pmap K V) : value := VDict (map (entry K V _ embK dict_h) m).
@@ -427,7 +427,7 @@ Section Dicts.
     rt_dict_get (rep_dict m) (embK k) = Ok (rep_maybe embV (m_lookup keqb k m)).
   Proof.
     intros. unfold rep_dict, rt_dict_get.
-    change (rt_tostring (embK k)) with (ts K embK k).
+    change (rt_key (embK k)) with (ts K embK k).
     rewrite (tbl_get_keyed K V _ embK keqb keqb_eq key_inj dict_h).
     destruct (m_lookup keqb k m); reflexivity.
   Qed.
@@ -445,7 +445,7 @@ Section Dicts.
   Lemma dict_remove_refines : forall m k,
     rt_dict_remove (rep_dict m) (embK k) = Ok (rep_dict (m_remove keqb k m)).
   Proof.
-    intros m k. unfold rep_dict, rt_dict_remove. change (rt_tostring (embK k)) with (ts K embK k).
+    intros m k. unfold rep_dict, rt_dict_remove. change (rt_key (embK k)) with (ts K embK k).
     rewrite (tbl_del_keyed K V _ embK keqb keqb_eq key_inj dict_h). reflexivity.
   Qed.
 
@@ -523,7 +523,7 @@ Section Sets.
   Variable embK : K -> value.
   Variable keqb : K -> K -> bool.
   Hypothesis keqb_eq : forall k k', keqb k k' = true <-> k = k'.
-  Hypothesis key_inj : forall k k', rt_tostring (embK k) = rt_tostring (embK k') -> k = k'.
+  Hypothesis key_inj : forall k k', rt_key (embK k) = rt_key (embK k') -> k = k'.
 
   Definition set_h (kv : K * unit) : value := embK (fst kv).
   Definition rep_set (s : pset K) : value := VSet (map (entry K unit _ embK set_h) s).
@@ -539,13 +539,13 @@ Section Sets.
 
   Lemma set_remove_refines : forall s k, rt_set_remove (rep_set s) (embK k) = Ok (rep_set (s_remove keqb k s)).
   Proof.
-    intros. unfold rep_set, rt_set_remove, s_remove. change (rt_tostring (embK k)) with (ts K embK k).
+    intros. unfold rep_set, rt_set_remove, s_remove. change (rt_key (embK k)) with (ts K embK k).
     rewrite (tbl_del_keyed K unit _ embK keqb keqb_eq key_inj set_h). reflexivity.
   Qed.
 
   Lemma set_contains_refines : forall s k, rt_set_contains (rep_set s) (embK k) = Ok (s_mem keqb k s).
   Proof.
-    intros. unfold rep_set, rt_set_contains, s_mem. change (rt_tostring (embK k)) with (ts K embK k).
+    intros. unfold rep_set, rt_set_contains, s_mem. change (rt_key (embK k)) with (ts K embK k).
     rewrite (tbl_mem_keyed K unit _ embK keqb keqb_eq key_inj set_h). reflexivity.
   Qed.
 
@@ -612,10 +612,7 @@ Section Sets.
 End Sets.
 
 (* ------------------------------------------------------------------------------------------------ *)
-(* key injectivity: proved for strings and for ints below 10^14, refuted beyond and for tuples        *)
-
-Lemma key_inj_str : forall s s', rt_tostring (VStr s) = rt_tostring (VStr s') -> s = s'.
-Proof. intros s s' H. exact H. Qed.
+(* decimal numerals are uniquely readable (used for __KEY in Sem/KeyEncoding.v and for printed tuples)  *)
 
 (* value of a decimal digit string, most significant digit first *)
 Fixpoint dec_val (s : string) (acc : N) : N :=
@@ -687,67 +684,6 @@ Proof.
     inversion Vl'. reflexivity.
 Qed.
 
-(* Lua 5.3 prints an integer with all its digits *)
-Theorem key_inj_int : forall z z', rt_tostring (vint z) = rt_tostring (vint z') -> z = z'.
-Proof. intros z z'. apply z_to_dec_inj. Qed.
-
-(* floats are printed with 14 significant digits (K: CmpEqu admits float keys) *)
-Theorem key_inj_float_refuted : exists p q : Q,
-  q_wf p /\ q_wf q /\ ~ Qeq p q /\ rt_tostring (VFloat p) = rt_tostring (VFloat q) /\
-  rt_tostring (VFloat p) = "1.0"%string.
-Proof.
-  exists (1000000000000001 # 1000000000000000)%Q, (500000000000001 # 500000000000000)%Q.
-  split; [vm_compute; reflexivity|]. split; [vm_compute; reflexivity|].
-  split; [unfold Qeq; simpl; discriminate|]. split; vm_compute; reflexivity.
-Qed.
-
-(* the printed form of a tuple does not delimit its string components *)
-Theorem key_inj_tuple_str_refuted : exists a b c d : string,
-  (a, b) <> (c, d) /\ rt_tostring (VTuple [VStr a; VStr b]) = rt_tostring (VTuple [VStr c; VStr d]).
-Proof.
-  exists "a, b"%string, "c"%string, "a"%string, "b, c"%string. split; [discriminate | vm_compute; reflexivity].
-Qed.
-
-(* consequence at the level of the property: two different tuple keys share one dict entry *)
-Theorem dict_tuple_key_collision : exists k1 k2 v1 v2 d,
-  rt_eq k1 k2 = false /\
-  rbind (rt_dict_update rt_dict_new k1 v1) (fun d1 => rt_dict_update d1 k2 v2) = Ok d /\
-  rt_len d = Ok (vint 1) /\ rt_dict_get d k1 = Ok (mk_just v2).
-Proof.
-  exists (VTuple [VStr "a, b"; VStr "c"]), (VTuple [VStr "a"; VStr "b, c"]), (vint 1), (vint 2).
-  eexists. split; [vm_compute; reflexivity|]. split; [vm_compute; reflexivity|].
-  split; vm_compute; reflexivity.
-Qed.
-
-Lemma string_eqb_eq : forall a b : string, String.eqb a b = true <-> a = b.
-Proof. apply String.eqb_eq. Qed.
-
-Lemma z_eqb_eq : forall a b : Z, Z.eqb a b = true <-> a = b.
-Proof. apply Z.eqb_eq. Qed.
-
-(* the instances: every history on dicts/sets keyed by strings or by ints *)
-Theorem dict_history_str_keys : forall (V : Type) (embV : V -> value) ops m,
-  rt_drun string V VStr embV ops (rep_dict string V VStr embV m) =
-  Ok (rep_dict string V VStr embV (fst (d_run string V String.eqb ops m)),
-      map (emb_dobs V embV) (snd (d_run string V String.eqb ops m))).
-Proof. intros. apply (dict_history_refines string V VStr embV String.eqb string_eqb_eq key_inj_str). Qed.
-
-Theorem dict_history_int_keys : forall (V : Type) (embV : V -> value) ops m,
-  rt_drun Z V vint embV ops (rep_dict Z V vint embV m) =
-  Ok (rep_dict Z V vint embV (fst (d_run Z V Z.eqb ops m)),
-      map (emb_dobs V embV) (snd (d_run Z V Z.eqb ops m))).
-Proof. intros. apply (dict_history_refines Z V vint embV Z.eqb z_eqb_eq key_inj_int). Qed.
-
-Theorem set_history_str_keys : forall ops s,
-  rt_srun string VStr ops (rep_set string VStr s) =
-  Ok (rep_set string VStr (fst (s_run string String.eqb ops s)), map emb_sobs (snd (s_run string String.eqb ops s))).
-Proof. intros. apply (set_history_refines string VStr String.eqb string_eqb_eq key_inj_str). Qed.
-
-Theorem set_history_int_keys : forall ops s,
-  rt_srun Z vint ops (rep_set Z vint s) =
-  Ok (rep_set Z vint (fst (s_run Z Z.eqb ops s)), map emb_sobs (snd (s_run Z Z.eqb ops s))).
-Proof. intros. apply (set_history_refines Z vint Z.eqb z_eqb_eq key_inj_int). Qed.
-
 (* lists of arbitrary run-time values: contains is membership up to == (structural equality by eq_struct) *)
 Theorem list_history_values : forall ops rops l, Forall2 (op_rel value (fun v => v)) ops rops ->
   rt_lrun rops (VList l) =
@@ -773,7 +709,7 @@ Theorem list_history_strs : forall ops rops l, Forall2 (op_rel string VStr) ops 
       map (emb_obs string VStr) (snd (l_run string String.eqb ops l))).
 Proof. intros. apply (list_history_refines string VStr String.eqb (fun a b => eq_refl)). assumption. Qed.
 
-(* ---- tostring is injective on (nested) tuples of ints (the key type of tests/sylt_std/dict_simple.sy) ----
+(* ---- tostring is injective on (nested) tuples of ints ----
    The printed form "(a, (b, c))" is uniquely readable: decimal numerals contain only the characters
    "-0123456789", and what follows a component (", " / "," / ")") starts with another character. *)
 
@@ -919,36 +855,6 @@ Proof.
     - rewrite L. apply vty_int_list. }
   inversion X. reflexivity.
 Qed.
-
-(* (int, int) as a key type *)
-Definition emb_zz (p : Z * Z) : value := VTuple [vint (fst p); vint (snd p)].
-Definition zz_eqb (p q : Z * Z) : bool := Z.eqb (fst p) (fst q) && Z.eqb (snd p) (snd q).
-
-Lemma zz_eqb_eq : forall p q, zz_eqb p q = true <-> p = q.
-Proof.
-  intros [a b] [c d]. unfold zz_eqb. simpl. rewrite andb_true_iff, !Z.eqb_eq.
-  split; [intros [-> ->]; reflexivity | intros H; inversion H; auto].
-Qed.
-
-Lemma zz_key_inj : forall p q, rt_tostring (emb_zz p) = rt_tostring (emb_zz q) -> p = q.
-Proof.
-  intros [a b] [c d] E.
-  assert (X : emb_zz (a, b) = emb_zz (c, d)).
-  { apply (tostring_inj_int_tuple (TTuple [TInt; TInt])); try assumption; try reflexivity;
-      simpl; repeat split; eexists; reflexivity. }
-  inversion X. reflexivity.
-Qed.
-
-Theorem dict_history_int_tuple_keys : forall (V : Type) (embV : V -> value) ops m,
-  rt_drun (Z * Z) V emb_zz embV ops (rep_dict (Z * Z) V emb_zz embV m) =
-  Ok (rep_dict (Z * Z) V emb_zz embV (fst (d_run (Z * Z) V zz_eqb ops m)),
-      map (emb_dobs V embV) (snd (d_run (Z * Z) V zz_eqb ops m))).
-Proof. intros. apply (dict_history_refines (Z * Z) V emb_zz embV zz_eqb zz_eqb_eq zz_key_inj). Qed.
-
-Theorem set_history_int_tuple_keys : forall ops s,
-  rt_srun (Z * Z) emb_zz ops (rep_set (Z * Z) emb_zz s) =
-  Ok (rep_set (Z * Z) emb_zz (fst (s_run (Z * Z) zz_eqb ops s)), map emb_sobs (snd (s_run (Z * Z) zz_eqb ops s))).
-Proof. intros. apply (set_history_refines (Z * Z) emb_zz zz_eqb zz_eqb_eq zz_key_inj). Qed.
 
 (* ------------------------------------------------------------------------------------------------ *)
 (* values made by the library vs the same values written in source                                   *)
